@@ -9,7 +9,8 @@ import subprocess
 import sys
 
 wt, name = sys.argv[1], sys.argv[2]
-out = f"/verif/seeded/{name}"
+HERE = os.path.dirname(os.path.dirname(os.path.abspath(__file__)))
+out = f"{HERE}/seeded/{name}"
 os.makedirs(out, exist_ok=True)
 
 
@@ -18,7 +19,7 @@ def sh(cmd, **kw):
 
 
 sh(f"git -C {wt} add -N src")
-patch = sh(f"git -C {wt} diff -- src").stdout
+patch = sh(f"git -C {wt} diff HEAD -- src").stdout
 assert patch.strip()
 open(f"{out}/patch.diff", "w").write(patch)
 env = dict(os.environ, PYTHONPATH=f"{wt}/src")
@@ -29,7 +30,7 @@ for f in ("notes.md", "equiv_check.py"):
 # the checks run against the worktree itself (BASICTDF_REPO / VERIF_OUT), so /repo is never touched
 import tempfile
 evd = tempfile.mkdtemp(prefix="eval_")
-r = sh(f"/verif/bin/eval_tree {wt} {evd}")
+r = sh(f"{HERE}/bin/eval_tree {wt} {evd}")
 shutil.rmtree(evd, ignore_errors=True)
 print(r.stdout)
 results = {}
